@@ -27,7 +27,9 @@ RULE = ("one run = one manager (real comm.server.TCPServer.run and the socketser
         "unique contents (sign hash / authorized sign / advanceBlockchain / updateAncestorBlock / "
         "blockchainState / signerHeartbeat / uiHeartbeat / getPubKey), lines optionally fragmented; device "
         "speed drawn per run (fast / mixed / slow: answers up to 6 s); one run in three injects one link "
-        "fault or a fatal status word at a drawn exchange; device answers "
+        "fault, a fatal status word or a device-range error status at a drawn exchange; the cyclic garbage "
+        "collector is off during a run and, one run in three, invoked at drawn device exchanges inside the "
+        "serving thread (APDUs sent by a finalizer are tagged as nobody's request); device answers "
         "after drawn latencies; the scheduler draws which task runs at every yield and which queued "
         "connection is accepted; non-trivial = at least two requests were in flight or queued at the "
         "same time; distinct = (accept order, backlog depth at each accept, schedule decision hash)")
@@ -117,6 +119,23 @@ def make_request(ch, i, uihb=True):
 
 
 def run_one(ch, cfg):
+    # the cyclic garbage collector is one more scheduler: left to itself it runs finalizers at an
+    # allocation of its own choosing, in whichever thread happens to allocate.  In simulation it is
+    # switched off for the run and, one run in three, asked for at drawn device exchanges instead
+    # (inside the serving thread, while the answer is awaited): a finalizer that talks to the device
+    # does so there, repeatably, and its APDUs are tagged as nobody's request
+    import gc
+    gc.disable()
+    try:
+        return _run_one(ch, cfg)
+    finally:
+        gc.enable()
+
+
+def _run_one(ch, cfg):
+    import gc
+    gc_mode = ch.draw(3, "gc.mode") == 1
+    in_gc = []
     nclients = 2 + ch.draw(cfg["max_clients"] - 1, "nclients")
     # per run: a fast, an ordinary or a slow device (every answer stays below the 10 s exchange
     # time-out, whole requests may take minutes)
@@ -133,11 +152,24 @@ def run_one(ch, cfg):
         # the manager cannot read, ends the manager by design
         # (reply without result code, shutdown by the helper thread) while other clients are queued:
         # whoever is still served gets their own reply, and the device sees whole requests only
+        # "device-error": a status of the device's own range (a rejected block, a refused step): the
+        # request that meets it fails with a result code, nothing else changes for anybody
         targets[4 + ch.draw(80, "fault.at")] = ch.pick(
             ["read_err_before", "read_err_after", "write_err", "timeout_before", "fatal-status",
-             "fatal-answer"], "fault.kind")
+             "fatal-answer", "device-error", "device-error"], "fault.kind")
     faulted = set()
+    dev_errors = set()
     fatal = []
+
+    def latency(apdu):
+        if gc_mode and not in_gc and ch.draw(5, "gc.now") == 0:
+            in_gc.append(1)
+            try:
+                w.link.stats.fault("gc.collect")
+                gc.collect(1)
+            finally:
+                in_gc.pop()
+        return lat[ch.draw(len(lat), "latency")]
 
     def fault_fn(idx, apdu):
         kind = targets.get(idx)
@@ -146,6 +178,9 @@ def run_one(ch, cfg):
         if kind == "fatal-status":
             fatal.append(idx)
             return ("sw", 0x6E00)
+        if kind == "device-error":
+            dev_errors.add(dev.tag())
+            return ("sw", 0x6B8B)
         if kind == "fatal-answer":
             # an answer cut down to one byte: the manager cannot read it, answers without a result code
             # and goes down (by design) - with other clients queued
@@ -160,7 +195,7 @@ def run_one(ch, cfg):
         # ManagerRunner); no link fault here, the device is simply as slow as drawn
         from sim.procworld import ProcWorld
         w = ProcWorld(ch, platform="tcp", device_cfg=dict(dcfg, mode=0x03), step_cap=60000)
-        w.link.latency_fn = lambda apdu: lat[ch.draw(len(lat), "latency")]
+        w.link.latency_fn = latency
         # a signal reaches the manager process while clients are queued (one run in three): whatever
         # the process does about it (nothing, end, a handler of its own) happens in the main thread on
         # top of the request being served - which still owns the device for its whole block
@@ -172,11 +207,11 @@ def run_one(ch, cfg):
             # get then is not this property's subject)
     else:
         w = ServerWorld(ch, fault_fn=fault_fn if nfaults else None, device_cfg=dcfg, step_cap=60000,
-                        latency=lambda apdu: lat[ch.draw(len(lat), "latency")])
+                        latency=latency)
     k = w.kernel
     dev = w.device
-    dev.tag = lambda: (k.current.last_line[0] if k.current is not None and
-                       k.current.last_line is not None else None)
+    dev.tag = lambda: "finalizer" if in_gc else (
+        k.current.last_line[0] if k.current is not None and k.current.last_line is not None else None)
     mtask = w.start_manager()
     if tcp:
         w.manager_task = mtask
@@ -263,6 +298,8 @@ def run_one(ch, cfg):
         why = chk(rep)
         if why and d[2] in faulted and rep.get("errorcode") == -905:
             why = None            # this request met the injected link fault
+        if why and d[2] in dev_errors and isinstance(rep.get("errorcode"), int) and rep["errorcode"] < 0:
+            why = None            # this request met the injected device error: its own failure
         if why:
             viol.append(("reply/not-own", "client %d (%s): %s" % (i, kinds[i], why)))
     # ---- contiguity of the tagged device log
